@@ -232,6 +232,10 @@ fn seq(ctx: &mut Ctx, stmts: &[Stmt], mut a: Alloc) -> String {
                         }
                     }
                     "allocated_string" | "allocated" if it == "unsafe{bucket.push_slice(slice)}" => {}
+                    _ if it == "self.buckets.len().saturating_sub(2)" => {
+                        // the insert position "before the last block", hoisted
+                        ctx.alias.insert(format!("@pos:{name}"), "insertBeforeLast".into());
+                    }
                     _ => {
                         // a NonZeroUsize local, or a pure arithmetic local (whatever its name): the latter is
                         // substituted at its uses — the inputs do not change between binding and use
@@ -249,6 +253,23 @@ fn seq(ctx: &mut Ctx, stmts: &[Stmt], mut a: Alloc) -> String {
             }
             Stmt::Expr(e, _) => {
                 let t = squash(&toks(e));
+                // `if let Err(e) = self.allocate_memory(X) { return Err(e); }`: the `?` written out
+                if let Expr::If(f) = e {
+                    if let (Expr::Let(l), None) = (&*f.cond, &f.else_branch) {
+                        let pat = squash(&toks(&*l.pat));
+                        let body = squash(&toks(&f.then_branch));
+                        if let (Some(ev), Expr::MethodCall(m)) = (pat.strip_prefix("Err(").and_then(|x| x.strip_suffix(')')), &*l.expr) {
+                            let ret_ok = body == format!("{{returnErr({ev});}}") || body == format!("{{returnErr({ev})}}");
+                            if ret_ok && m.method == "allocate_memory" && squash(&toks(&m.receiver)) == "self" && m.args.len() == 1 {
+                                if a.claim.is_some() {
+                                    return format!("(.unknown {})", lean::s("two budget claims on one path"));
+                                }
+                                a.claim = Some(ctx.expr(&m.args[0]));
+                                continue;
+                            }
+                        }
+                    }
+                }
                 // if / else chains
                 if let Expr::If(f) = e {
                     let c = ctx.cond(&f.cond);
@@ -310,7 +331,7 @@ fn seq(ctx: &mut Ctx, stmts: &[Stmt], mut a: Alloc) -> String {
                         let args: Vec<String> = m.args.iter().map(|x| squash(&toks(x))).collect();
                         let place = match (m.method.to_string().as_str(), args.as_slice()) {
                             ("push", [b]) if b == "bucket" => Some(".pushBack"),
-                            ("insert", [p, b]) if b == "bucket" && p == "self.buckets.len().saturating_sub(2)" => Some(".insertBeforeLast"),
+                            ("insert", [p, b]) if b == "bucket" && (p == "self.buckets.len().saturating_sub(2)" || ctx.alias.contains_key(&format!("@pos:{p}"))) => Some(".insertBeforeLast"),
                             ("push_front", [b]) if b == "bucket.into_ref()" => Some(".pushFront"),
                             _ => None,
                         };
@@ -411,7 +432,8 @@ fn single_alloc_ok(path: &Path) -> bool {
         forms.push(format!("{{if{cond}{{return{err};}}self.memory_usage+=requested_mem;Ok(())}}"));
         forms.push(format!("{{if{cond}{{return{err}}}self.memory_usage+=requested_mem;Ok(())}}"));
     }
-    for local in ["new_usage", "usage", "next_usage", "total", "new_memory_usage"] {
+    let dyn_local: Option<String> = t.strip_prefix("{let").and_then(|r| r.split_once(&format!("={sum};"))).map(|(n, _)| n.to_string()).filter(|n| !n.is_empty() && n.chars().all(|c| c.is_alphanumeric() || c == '_'));
+    for local in ["new_usage", "usage", "next_usage", "total", "new_memory_usage"].into_iter().map(String::from).chain(dyn_local) {
         for cond in [format!("{local}>{max}"), format!("{max}<{local}")] {
             forms.push(format!("{{let{local}={sum};if{cond}{{return{err};}}self.memory_usage={local};Ok(())}}"));
             forms.push(format!("{{let{local}={sum};if{cond}{{{err}}}else{{self.memory_usage={local};Ok(())}}}}"));
